@@ -1,5 +1,6 @@
 // MatsubaraContainer4<Probe>: the real storage template instantiated over a source whose value encodes its arguments.
 #pragma once
+#include <algorithm>
 #include "pv_common.hpp"
 #include <pomerol/MatsubaraContainers.h>
 
@@ -20,27 +21,33 @@ struct Probe {
     }
 };
 
-// {"kind":"store","id":..,"N":n,"box":b}  -> Fill event (sequence of source calls) + one Lookup event per n1 (rows of results)
+// {"kind":"store","id":..,"N":n | "Ns":[n...],"box":b}  -> for every window size in turn, ON THE SAME OBJECT: a Fill event (sequence of
+// source calls) + one Lookup event per n1 (rows of results).  A history of window sizes that shrinks and grows shows stale slots.
 inline void run_store(const json& sc) {
-    long N = sc.at("N").get<long>();
-    long B = sc.value("box", 2 * N + 3);
+    std::vector<long> Ns;
+    if (sc.count("Ns")) for (auto& x : sc["Ns"]) Ns.push_back(x.get<long>()); else Ns.push_back(sc.at("N").get<long>());
+    long maxN = *std::max_element(Ns.begin(), Ns.end());
+    long B = sc.value("box", 2 * maxN + 3);
     Probe src;
     MatsubaraContainer4<Probe> store;
-    store.fill(&src, N);
-    json calls = json::array();
-    for (auto& c : src.calls) calls.push_back(json::array({c[0], c[1], c[2]}));
-    emit({{"e", "Fill"}, {"id", sc.value("id", json())}, {"N", N}, {"calls", calls}, {"reported", store.getNumberOfMatsubaras()}});
-    for (long n1 = -B; n1 <= B; ++n1) {
-        json rows = json::array();
-        for (long n2 = -B; n2 <= B; ++n2)
-            for (long n3 = -B; n3 <= B; ++n3) {
-                src.calls.clear();
-                ComplexType v = store(n1, n2, n3);
-                long r1, r2, r3;
-                Probe::decode(v, r1, r2, r3);
-                rows.push_back(json::array({n2, n3, r1, r2, r3, int(src.calls.size())}));
-            }
-        emit({{"e", "Lookup"}, {"id", sc.value("id", json())}, {"N", N}, {"n1", n1}, {"rows", rows}});
+    for (long N : Ns) {
+        src.calls.clear();
+        store.fill(&src, N);
+        json calls = json::array();
+        for (auto& c : src.calls) calls.push_back(json::array({c[0], c[1], c[2]}));
+        emit({{"e", "Fill"}, {"id", sc.value("id", json())}, {"N", N}, {"calls", calls}, {"reported", store.getNumberOfMatsubaras()}});
+        for (long n1 = -B; n1 <= B; ++n1) {
+            json rows = json::array();
+            for (long n2 = -B; n2 <= B; ++n2)
+                for (long n3 = -B; n3 <= B; ++n3) {
+                    src.calls.clear();
+                    ComplexType v = store(n1, n2, n3);
+                    long r1, r2, r3;
+                    Probe::decode(v, r1, r2, r3);
+                    rows.push_back(json::array({n2, n3, r1, r2, r3, int(src.calls.size())}));
+                }
+            emit({{"e", "Lookup"}, {"id", sc.value("id", json())}, {"N", N}, {"n1", n1}, {"rows", rows}});
+        }
     }
 }
 
